@@ -351,6 +351,13 @@ def creators_refuse_existing(prog, chk, rid):
                         sp = c16._sym_path(prog, g, children(x)[1])
                         if sp is not None:
                             refused.add(tuple(y if isinstance(y, str) else ('param', 'directory') for y in sp))
+                    elif x.get('kind') == 'CallExpr' and id(x) not in negated:
+                        # `std::any_of(paths.begin(), paths.end(), [](const std::string& p) { return exists(p); })`
+                        # over a constant list of paths is the || chain of the tests of its elements
+                        for el in _any_of_existence(prog, g, x, named):
+                            sp = c16._sym_path(prog, g, el)
+                            if sp is not None:
+                                refused.add(tuple(y if isinstance(y, str) else ('param', 'directory') for y in sp))
         short = f.qualname.replace('djinterop::engine::', '')
         missing = sorted(probed - refused, key=str)
         inst = '%s refuses when %s exist(s)' % (short, ', '.join(c16._show_path(x) for x in sorted(probed & refused, key=str)) or 'nothing')
@@ -364,6 +371,48 @@ def creators_refuse_existing(prog, chk, rid):
                           'load_database rejects a directory with both layouts - the library just created is not '
                           'recognised on load' % (short, ' / '.join(c16._show_path(x) for x in missing),
                                                   ', '.join(c16._show_path(x) for x in sorted(refused, key=str)) or 'nothing'))
+
+
+def _any_of_existence(prog, g, call, named):
+    """Elements of the constant container an `any_of(first, last, pred)` call ranges over, when pred is a lambda
+    that returns the existence test of its own parameter; otherwise nothing."""
+    from . import c16
+    if (strip(children(call)[0]).get('referencedDecl') or {}).get('name') != 'any_of':
+        return []
+    args = children(call)[1:]
+    if len(args) != 3:
+        return []
+    conts = []
+    for a in args[:2]:
+        ids = [(y.get('referencedDecl') or {}).get('id') for y in walk(a) if y.get('kind') == 'DeclRefExpr'
+               and (y.get('referencedDecl') or {}).get('kind') == 'VarDecl']
+        conts.append(ids[0] if len(ids) == 1 else None)
+    if conts[0] is None or conts[0] != conts[1] or conts[0] not in named:
+        return []
+    if not any(y.get('kind') == 'MemberExpr' and y.get('name') in ('begin', 'cbegin') for y in walk(args[0])) and \
+            not any((y.get('referencedDecl') or {}).get('name') in ('begin', 'cbegin') for y in walk(args[0])):
+        return []
+    lam = [y for y in walk(args[2]) if y.get('kind') == 'LambdaExpr']
+    if len(lam) != 1:
+        return []
+    meth = [m for r in children(lam[0]) if r.get('kind') == 'CXXRecordDecl'
+            for m in children(r) if m.get('kind') == 'CXXMethodDecl' and m.get('name') == 'operator()']
+    body = [y for y in children(lam[0]) if y.get('kind') == 'CompoundStmt']
+    if not meth or not body:
+        return []
+    params = [p_.get('id') for p_ in children(meth[0]) if p_.get('kind') == 'ParmVarDecl']
+    st = children(body[-1])
+    if len(params) != 1 or len(st) != 1 or st[0].get('kind') != 'ReturnStmt' or not children(st[0]):
+        return []
+    t = strip(children(st[0])[0], explicit=True)
+    if t.get('kind') != 'CallExpr' or len(children(t)) != 2 or not c16._is_existence_test(prog, g, t):
+        return []
+    if (strip(children(t)[1], explicit=True).get('referencedDecl') or {}).get('id') != params[0]:
+        return []
+    for y in walk(named[conts[0]]):
+        if y.get('kind') == 'InitListExpr' and children(y) and children(y)[0].get('kind') != 'InitListExpr':
+            return children(y)
+    return []
 
 
 def _demanded_paths(prog, func, before_node):
